@@ -56,7 +56,31 @@ class C6_{k}(StateMachine):
     {a}def on_tock(self, *args, **kwargs):
         return {w}REC.{run}("k", self, args, kwargs)
 '''
+GUARD_SRC = '''
+class C6_{k}(StateMachine):
+    s = State(initial=True)
+    tick = s.to.itself(cond=["g_slow", "g_fail"])
+    async def g_slow(self, *args, **kwargs):
+        await REC.arun("gs", self, args, kwargs)
+        return True
+    async def g_fail(self, *args, **kwargs):
+        if str(kwargs.get("_tok", "")).startswith("A0"):
+            raise RuntimeError("guard failed")
+        return True
+    async def on_tick(self, *args, **kwargs):
+        return await REC.arun("o", self, args, kwargs)
+'''
 _k = [0]
+
+
+def build_guards(rec):
+    from statemachine import State, StateMachine
+
+    _k[0] += 1
+    src = GUARD_SRC.format(k=_k[0])
+    ns = {"State": State, "StateMachine": StateMachine, "REC": rec, "__name__": "vmon_c06"}
+    exec(compile(src, "<c06g>", "exec"), ns)
+    return ns[f"C6_{_k[0]}"], src
 
 
 def build(rec, is_async):
@@ -134,7 +158,34 @@ def check_history(log, sent, returned_all, errors, anonymous=False):
     return out
 
 
+def check_guard_history(log, sent, errors):
+    """Machine whose event has two coroutine guards, one failing for sender A0 while the other is
+    suspended: the guard of the failed event must not run on while later events are processed."""
+    out = [("sender-raised", f"{n}: {e}") for n, e in errors.items()]
+    first, last = {}, {}
+    for e in log:
+        if e["k"] == "cb_begin":
+            first.setdefault(e["tok"], e["n"])
+        elif e["k"] == "cb_end":
+            last[e["tok"]] = e["n"]
+    iv = sorted((first[t], last.get(t, 10 ** 9), t) for t in first)
+    for (a0, a1, ta), (b0, b1, tb) in zip(iv, iv[1:]):
+        if b0 < a1:
+            out.append(("overlap", f"callbacks of {tb} (from n={b0}) began before the guard/callbacks of {ta} ended (n={a1})"))
+            break
+    for sender, toks in sent.items():
+        if sender == "A0":
+            continue
+        for t in toks:
+            n_on = sum(1 for e in log if e["k"] == "cb_begin" and e["tok"] == t and e["cb"] == "o")
+            if n_on != 1:
+                out.append(("not-exactly-once", f"event {t}: on_tick ran {n_on} times"))
+    return out
+
+
 def scripts(cfg):
+    if cfg.get("guards"):
+        return {"gs": {"ret": "none", "yields": cfg.get("yields", 2)}, "o": {"ret": "none", "yields": 1}}
     y = cfg.get("yields", 1)
     sc = {"b": {"ret": "none"}, "o": {"ret": "none", "yields": y}, "a": {"ret": "none"}, "k": {"ret": "none", "yields": min(y, 1)}}
     if cfg.get("nested"):
@@ -163,7 +214,7 @@ def run_threads_once(cfg, prefix):
 
     def sender(name):
         def body():
-            for i in range(cfg["sends"]):
+            for i in range(cfg.get("sends_by", {}).get(name, cfg["sends"])):
                 tok = f"{name}.{i}"
                 sent.setdefault(name, []).append(tok)
                 rec.emit("send_call", tok=tok, event="tick", sender=name)
@@ -183,7 +234,7 @@ def run_threads_once(cfg, prefix):
 
 
 def explore_threads(cfg, bound, shard, nshards, counters, violations, sigs, samples, budget_s, mode="dfs", seed=0, n_random=0):
-    ST.install()
+    ST.install(focus=bool(cfg.get("focus")))
     t0 = time.time()
     try:
         if mode == "dfs":
@@ -258,7 +309,7 @@ def record_thread_run(cfg, bound, prefix, sched, rec, problems, src, counters, v
 
 # ------------------------------------------------------------------ asyncio
 async def _arun(cfg, prefix, rec):
-    cls, src = build(rec, True)
+    cls, src = build_guards(rec) if cfg.get("guards") else build(rec, True)
     gate = SA.Gate(prefix)
     rec.gate = gate
     sm = cls()
@@ -267,8 +318,12 @@ async def _arun(cfg, prefix, rec):
     sent = {}
     errors = {}
 
+    a0_done = asyncio.Event()
+
     async def sender(name):
         try:
+            if cfg.get("guards") and name != "A0":
+                await a0_done.wait()       # failing events are not mixed with concurrency (exception paths are C04's)
             for i in range(cfg["sends"]):
                 await gate.point(name)
                 tok = f"{name}.{i}"
@@ -280,7 +335,11 @@ async def _arun(cfg, prefix, rec):
                     res = await sm.send("tick", _tok=tok)
                 rec.emit("send_return", tok=tok, val=repr(res))
         except Exception as err:  # noqa: BLE001
-            errors[name] = f"{type(err).__name__}: {err}"
+            if not (cfg.get("guards") and name == "A0"):     # A0's guard is scripted to fail
+                errors[name] = f"{type(err).__name__}: {err}"
+        finally:
+            if name == "A0":
+                a0_done.set()
 
     tasks = [asyncio.create_task(sender(f"A{i}"), name=f"A{i}") for i in range(cfg["senders"])]
     stuck = None
@@ -302,7 +361,10 @@ def run_async_once(cfg, prefix):
     rec.scripts = scripts(cfg)
     rec.send_budget = 99
     gate, sent, errors, stuck, src = asyncio.run(_arun(cfg, prefix, rec))
-    problems = check_history(rec.log, sent, stuck is None, errors, cfg.get("anonymous"))
+    if cfg.get("guards"):
+        problems = check_guard_history(rec.log, sent, errors)
+    else:
+        problems = check_history(rec.log, sent, stuck is None, errors, cfg.get("anonymous"))
     if stuck:
         problems.append(("stuck", stuck))
     return gate, rec, problems, src
@@ -437,6 +499,10 @@ def plan(tier, seed):
         S.append({"kind": "asyncio", "cfg": {"senders": 3, "sends": 2, "yields": 1, "anonymous": True}, "shard": 0, "nshards": 1})
         for i in range(8):
             S.append({"kind": "threads", "cfg": {"senders": 2, "sends": 1, "yields": 1}, "bound": 2, "shard": i, "nshards": 8})
+        for i in range(4):
+            # scheduling points restricted to enqueue / elect / drain / release: bound 3 becomes affordable
+            S.append({"kind": "threads", "cfg": {"senders": 2, "sends": 1, "sends_by": {"T1": 2}, "yields": 0, "focus": True},
+                      "bound": 3, "shard": i, "nshards": 4})
         for i in range(2):
             S.append({"kind": "threads", "cfg": {"senders": 2, "sends": 2, "yields": 1}, "bound": 1, "shard": i, "nshards": 2})
         for i in range(4):
@@ -444,6 +510,7 @@ def plan(tier, seed):
         for i in range(3):
             S.append({"kind": "threads-random", "cfg": {"senders": 3 + (i % 2), "sends": 2, "yields": 1, "nested": i == 0}, "n": 120, "seed": seed * 31 + i})
         S.append({"kind": "asyncio", "cfg": {"senders": 2, "sends": 1, "yields": 2, "yield_after": True}, "shard": 0, "nshards": 1})
+        S.append({"kind": "asyncio", "cfg": {"senders": 2, "sends": 2, "yields": 2, "guards": True}, "shard": 0, "nshards": 1})
         S.append({"kind": "asyncio-cancel", "cfg": {"senders": 2, "sends": 2, "yields": 2, "yield_after": True}})
         S.append({"kind": "asyncio-cancel", "cfg": {"senders": 2, "sends": 2, "yields": 1, "nested": True}})
         S.append({"kind": "asyncio", "cfg": {"senders": 2, "sends": 2, "yields": 2, "nested": True}, "shard": 0, "nshards": 1})
@@ -466,6 +533,12 @@ def plan(tier, seed):
             S.append({"kind": "threads", "cfg": {"senders": 2, "sends": 1, "yields": 0}, "bound": 3, "shard": i, "nshards": 8})
         for i in range(8):
             S.append({"kind": "threads-random", "cfg": {"senders": 4, "sends": 2 + (i % 2), "yields": 1, "nested": i % 2 == 0}, "n": 2500, "seed": seed * 31 + i})
+        for i in range(8):
+            S.append({"kind": "threads", "cfg": {"senders": 2, "sends": 1, "sends_by": {"T1": 2}, "yields": 0, "focus": True}, "bound": 4, "shard": i, "nshards": 8})
+        for i in range(8):
+            S.append({"kind": "threads", "cfg": {"senders": 2, "sends": 2, "yields": 1, "focus": True}, "bound": 3, "shard": i, "nshards": 8})
+        for i in range(8):
+            S.append({"kind": "threads", "cfg": {"senders": 3, "sends": 1, "yields": 0, "focus": True}, "bound": 3, "shard": i, "nshards": 8})
         for i in range(4):
             S.append({"kind": "asyncio", "cfg": {"senders": 3, "sends": 1, "yields": 2, "nested": True}, "shard": i, "nshards": 4})
         for i in range(4):
@@ -477,6 +550,8 @@ def plan(tier, seed):
         for i in range(4):
             S.append({"kind": "asyncio", "cfg": {"senders": 3, "sends": 3, "yields": 2, "nested": True}, "shard": i, "nshards": 4})
         S.append({"kind": "asyncio-cancel", "cfg": {"senders": 2, "sends": 3, "yields": 3, "yield_after": True, "nested": True}})
+        for i in range(2):
+            S.append({"kind": "asyncio", "cfg": {"senders": 3, "sends": 2, "yields": 2, "guards": True}, "shard": i, "nshards": 2})
         for i in range(4):
             S.append({"kind": "asyncio", "cfg": {"senders": 2, "sends": 2, "yields": 2, "nested": True, "activate_first": False}, "shard": i, "nshards": 4})
         budget = 500
